@@ -5,7 +5,7 @@ From BT Require Import Model.Skel Model.SkelTie Proof.SkelCert Proof.SkelProofs.
 
 Theorem C18_tie : G = guards_of_gen /\ g_sig_int_is_interrupt G = true /\ g_sig_honours_ignore G = true /\
                   g_sig_loops G = true /\ g_restore_keeps_nosig G = true /\ g_int_err G = true /\ g_quit_nil G = true /\
-                  g_sig_stays G = true /\ g_rz_guarded G = true /\
+                  g_sig_stays G = true /\ g_rz_guarded G = true /\ g_restore_unignores_first G = true /\
                   shapes_ok_for ["handleSignals"; "handleResize"; "listenForResize"; "checkResize"]%string = true.
 Proof. vm_compute. repeat split. Qed.
 Print Assumptions C18_tie.
@@ -35,6 +35,11 @@ Print Assumptions C18_without_signals.
 Theorem C18_handler_stays : forall s, Reach s -> sg s = SgDone -> struck s = true.
 Proof. exact signal_handler_stays. Qed.
 Print Assumptions C18_handler_stays.
+(* outside a release window signals count: whenever the loop waits at its select (also after an Exec whose
+   RestoreTerminal failed) the ignore flag is down unless WithoutSignals was asked for *)
+Theorem C18_signals_count_at_select : forall s, Reach s -> run s = RSelect -> nosig s = false -> ign s = false.
+Proof. exact signals_count_at_select. Qed.
+Print Assumptions C18_signals_count_at_select.
 (* WithoutSignalHandler: no handler thread ever exists *)
 Theorem C18_no_handler : forall s, Reach s -> sigoff_ok s = true.
 Proof. exact (all_R _ sigoff_R). Qed.
